@@ -133,6 +133,9 @@ func (s InitSpec) build() (layers.Initializer, error) {
 	switch s.Kind {
 	case "full":
 		if s.NilConf {
+			if len(s.Shape)%2 == 1 {
+				return &initializers.Full{}, nil // the zero value: the constant 0, like NewFull(nil)
+			}
 			return initializers.NewFull(nil), nil
 		}
 		c := &initializers.FullConfig{Value: s.A}
@@ -274,8 +277,10 @@ func checkC18(c C18Case) *Failure {
 		if !ref.EqShape(xs, s.Shape) {
 			return failf("%s returned shape %v, requested %v", s.Kind, xs, s.Shape)
 		}
-		if len(calls[k]) == 0 {
-			// tracked-ness is observable through a back-propagation
+		if len(calls[k]) < 24 {
+			// tracked-ness is observable through a back-propagation; every result of the object
+			// is a fresh tracked leaf, not only the first (after which the object's earlier
+			// results have been back-propagated through)
 			if err := tensor.BackPropagate(x.Scale(1)); err != nil {
 				return failf("BackPropagate on %s result: %v", s.Kind, err)
 			}
